@@ -479,10 +479,58 @@ func choosePassphrase(r *hx.Rng) (string, []string) {
 		collidingPairs[d.name] = pair
 	}
 
-	p := pair[0]
+	// passphrase LENGTH is a dimension of its own: words, sentences, phrases longer than any hash's block (64 / 128
+	// bytes) or a password hash's input bound (55, 56, 72 bytes).  (An iterative checksum collision survives a common
+	// suffix, so the colliding pair stays one.)
+	suffix := ""
 
-	return p, []string{pair[1], p + "x", p[:len(p)-1], strings.ToUpper(p), strings.ToLower(p), " " + p, p + " ",
+	if n := []int{0, 0, 10, 41, 42, 60, 106, 107, 180, 300}[r.Intn(10)]; n > 0 {
+		words := []string{" correct", " horse", " battery", " staple", " Zebra", " 7", " quiet", " lantern"}
+		for len(suffix) < n {
+			suffix += words[r.Intn(len(words))]
+		}
+
+		suffix = suffix[:n]
+	}
+
+	p := pair[0] + suffix
+
+	wrong := []string{pair[1] + suffix, p + "x", p[:len(p)-1], strings.ToUpper(p), strings.ToLower(p), " " + p, p + " ",
 		p[:8] + hex.EncodeToString(r.Bytes(9))}
+
+	// wrong passphrases that agree with the right one on a prefix / everywhere but one place: a lock that lets only part of
+	// the passphrase take part in the derivation (a bounded buffer, a truncated or block-wise folded input) takes them
+	// for the right one.  One character changed at the start, in the middle, at the end and right after every boundary;
+	// the passphrase cut at every boundary.
+	flip := func(s string, i int) string {
+		c := byte('q')
+		if s[i] == c {
+			c = 'Q'
+		}
+
+		return s[:i] + string(c) + s[i+1:]
+	}
+
+	wrong = append(wrong, flip(p, 0), flip(p, len(p)/2), flip(p, len(p)-1))
+
+	for _, bnd := range []int{8, 16, 20, 32, 48, 55, 56, 63, 64, 65, 72, 100, 127, 128, 129, 255, 256} {
+		if bnd < len(p) {
+			wrong = append(wrong, p[:bnd], flip(p, bnd))
+		}
+	}
+
+	seen := map[string]bool{p: true}
+
+	var out []string
+
+	for _, x := range wrong {
+		if !seen[x] {
+			seen[x] = true
+			out = append(out, x)
+		}
+	}
+
+	return p, out
 }
 
 // ---------- rebuilding a stored value as a term ----------
